@@ -56,8 +56,34 @@ func c24view(m kvm.Model, prefix []byte) kvm.Model {
 
 var c24prefixes = [][]byte{{0x00}, {0xff}, {'a'}, {'a', 'b'}, {'a', 0xff}, {0xff, 0xff}, {'b'}, {0x00, 0x00}, {'a', 0xff, 0xff}, {0xfe}}
 
+// c24key: mostly short keys from the colliding alphabet; one in ten is long (56..68 bytes), so that prefix+key
+// crosses the sizes at which implementations switch from stack buffers to allocations
+func c24key(r *rand.Rand) []byte {
+	if r.Intn(10) != 0 {
+		return kvm.Key(r, 0, 3)
+	}
+	k := make([]byte, 56+r.Intn(13))
+	for i := range k {
+		k[i] = "ab\x00\xff"[r.Intn(4)]
+	}
+	if r.Intn(2) == 0 {
+		copy(k[len(k)-3:], kvm.Key(r, 3, 3)) // long keys that differ only at the very end
+	}
+	return k
+}
+
+// c24existing: half of the point reads and deletes go to a key that exists in the handle's view (a fresh random key,
+// above all a long one, is practically never present)
+func c24existing(r *rand.Rand, view kvm.Model) []byte {
+	if r.Intn(2) == 0 && len(view) > 0 {
+		ps := view.Iter(nil, nil)
+		return append([]byte{}, ps[r.Intn(len(ps))].K...)
+	}
+	return c24key(r)
+}
+
 func runC24(c *ev.Ctx) {
-	c.Rule = "one underlying store (memory, flushable/memory, LevelDB or Pebble, behind a Compact recorder) with four handles: raw, table(p1), table(p2), nested table(p1).NewTable(p3); p1,p2,p3 drawn from {00, ff, a, ab, a·ff, ff·ff, b, 00·00, a·ff·ff, fe} (nested and non-nested pairs). Random sequences of 70 operations through random handles: put, delete, get/has, iterate(prefix,start), batch put/delete/write/replay, snapshot take/read/release, Compact(nil,nil). " +
+	c.Rule = "one underlying store (memory, flushable/memory, LevelDB or Pebble, behind a Compact recorder) with five handles: raw, table(p1), table(p2), nested table(p1).NewTable(p3) and the three-level table(p1).NewTable(p3).NewTable(p4); one key in ten is 56..68 bytes long; p1,p2,p3 drawn from {00, ff, a, ab, a·ff, ff·ff, b, 00·00, a·ff·ff, fe} (nested and non-nested pairs). Random sequences of 70 operations through random handles: put, delete, get/has, iterate(prefix,start), batch put/delete/write/replay, snapshot take/read/release, Compact(nil,nil). " +
 		"Oracle after EVERY operation: the raw content of the underlying store equals the model (so a write through a table touched only p+key), every table's full iteration equals {k minus prefix | k has the prefix}, point reads agree, snapshots keep their creation-time view, batch Replay yields un-prefixed keys; every Compact(nil,nil) on a table reached the underlying store as (start <= prefix, limit nil or greater than every key with the prefix). " +
 		"non-trivial = distinct sequences with a non-nested table pair that both received writes, a key equal to the bare prefix (empty table key), and a whole-table Compact followed by more operations"
 	c.Assumptions = []string{"non-nil keys/values", "table prefixes are non-empty"}
@@ -99,8 +125,11 @@ func runC24(c *ev.Ctx) {
 			t1 := table.New(rec, cp(p1))
 			t2 := table.New(rec, cp(p2))
 			n := t1.NewTable(cp(p3))
+			p4 := c24prefixes[r.Intn(len(c24prefixes))]
+			n3 := n.NewTable(cp(p4)) // three levels deep
 			hs := []*c24handle{{name: "raw", db: rec}, {name: fmt.Sprintf("table(%x)", p1), db: t1, prefix: p1}, {name: fmt.Sprintf("table(%x)", p2), db: t2, prefix: p2},
-				{name: fmt.Sprintf("table(%x).table(%x)", p1, p3), db: n, prefix: append(append([]byte{}, p1...), p3...)}}
+				{name: fmt.Sprintf("table(%x).table(%x)", p1, p3), db: n, prefix: append(append([]byte{}, p1...), p3...)},
+				{name: fmt.Sprintf("table(%x).table(%x).table(%x)", p1, p3, p4), db: n3, prefix: append(append(append([]byte{}, p1...), p3...), p4...)}}
 			m := kvm.Model{}
 			var log []string
 			stats := map[string]int{}
@@ -112,7 +141,7 @@ func runC24(c *ev.Ctx) {
 				view := c24view(m, h.prefix)
 				switch c := r.Intn(100); {
 				case c < 25:
-					k, v := kvm.Key(r, 0, 3), kvm.Key(r, 0, 2)
+					k, v := c24key(r), kvm.Key(r, 0, 2)
 					log = append(log, fmt.Sprintf("%s put %x=%x", h.name, k, v))
 					kk, vv := append([]byte{}, k...), append([]byte{}, v...)
 					if err := h.db.Put(kk, vv); err != nil {
@@ -126,14 +155,14 @@ func runC24(c *ev.Ctx) {
 						stats["empty_table_key"]++
 					}
 				case c < 33:
-					k := kvm.Key(r, 0, 3)
+					k := c24existing(r, view)
 					log = append(log, fmt.Sprintf("%s delete %x", h.name, k))
 					if err := h.db.Delete(append([]byte{}, k...)); err != nil {
 						return "Delete error " + err.Error()
 					}
 					delete(m, full(k))
 				case c < 43:
-					k := kvm.Key(r, 0, 3)
+					k := c24existing(r, view)
 					log = append(log, fmt.Sprintf("%s get %x", h.name, k))
 					if why := kvm.CheckPoint(h.db, view, k); why != "" {
 						return h.name + ": " + why
@@ -153,7 +182,7 @@ func runC24(c *ev.Ctx) {
 						h.batch = h.db.NewBatch()
 						h.pend = nil
 					}
-					k, v := kvm.Key(r, 0, 3), kvm.Key(r, 0, 2)
+					k, v := c24key(r), kvm.Key(r, 0, 2)
 					dl := r.Intn(3) == 0
 					log = append(log, fmt.Sprintf("%s batch del=%v %x=%x", h.name, dl, k, v))
 					if dl {
@@ -225,7 +254,7 @@ func runC24(c *ev.Ctx) {
 					if why := kvm.SamePairs(got, h.snapM[i].Iter(p, st)); why != "" {
 						return fmt.Sprintf("%s snapshot %d iterate: %s", h.name, i, why)
 					}
-					if why := kvm.CheckPoint(h.snaps[i], h.snapM[i], kvm.Key(r, 0, 3)); why != "" {
+					if why := kvm.CheckPoint(h.snaps[i], h.snapM[i], c24existing(r, h.snapM[i])); why != "" {
 						return fmt.Sprintf("%s snapshot %d: %s", h.name, i, why)
 					}
 					stats["snapshot_read"]++
